@@ -89,7 +89,13 @@ def build_request(case, rnd):
     else:
         n = rnd.choice([LIMIT + 1, LIMIT * 3])
         content = bytes(rnd.getrandbits(8) for _ in range(n))
-    line = "titan://h.ex%s;size=%d;mime=text/plain" % (path, len(content))
+    mime = "text/plain"
+    if case["mime"] == "refused":
+        # not on the list ["text/gemini"] - including declared types that read like patterns: a declared type is a name
+        mime = rnd.choice(["text/plain", "text/plain", "*", "text/*", "*/*", "?ext/gemini", "text/gemin[a-z]", "text/gemini*", "[!x]ext/gemini"])
+    elif case["mime"] == "allowed":
+        mime = rnd.choice(["text/plain", "text/gemini"])
+    line = "titan://h.ex%s;size=%d;mime=%s" % (path, len(content), mime)
     tok = {"notneeded": rnd.choice([None, "whatever"]), "right": "GOODTOKEN", "wrong": rnd.choice(["BADTOKEN", "goodtoken", "GOODTOKEN%20", "guess"]),
            "missing": rnd.choice([None, None, ""])}[case["token"]]
     if tok is not None:
@@ -207,6 +213,15 @@ def run_case(tree, case, rnd):
                     resource.setrlimit(resource.RLIMIT_FSIZE, (k, k))
                 else:
                     handler = make_handler(case, up, rnd)
+                    if case["fault"] == "dropbox":
+                        # a drop box: everything belongs to the server's user, directories are write+search only
+                        for dp, dn, fn in os.walk(tree.top):
+                            os.chown(dp, 65534, 65534)
+                            for f_ in fn:
+                                os.lchown(os.path.join(dp, f_), 65534, 65534)
+                        for dp, dn, fn in os.walk(tree.top, topdown=False):
+                            if dp != tree.top:
+                                os.chmod(dp, 0o300)
                     os.setgid(65534)
                     os.setuid(65534)
                 st = run_protocol(handler, line, content, rnd)
@@ -423,7 +438,7 @@ def main(pid="C14"):
         for _ in range(nf):
             cases.append({"L": rnd.choice(slots), "path": rnd.choice(paths), "size": rnd.choice(["ok", "ok", "zero"]),
                           "token": rnd.choice(["notneeded", "right"]), "mime": rnd.choice(["nolist", "allowed"]),
-                          "deleteOn": True, "fault": rnd.choice(["partial", "perm"])})
+                          "deleteOn": True, "fault": rnd.choice(["partial", "perm", "dropbox"])})
         out = []
         for c in cases:
             st, before, after, content = run_case(tree, c, rnd)
